@@ -1,4 +1,5 @@
 import LokiModel.C23.Lemmas
+import LokiModel.Generated.C23Tables
 /-!
 # C23 — batch processing does not depend on the letter case of names (property theorems)
 
@@ -86,6 +87,22 @@ theorem C23_eq_hash_partial (h : Name → Nat) (a b : Name) (ha : lower a = a) (
 theorem C23_eq_hash_fixed (h : Name → Nat) (a b : Name) (he : itemEq a b = true) : h (lower a) = h (lower b) := by
   have : lower a = lower b := by simpa [itemEq] using he
   rw [this]
+
+/-- the hash as the code in /repo computes it (`Generated.hashFoldsName` is re-read from `Item.__hash__` on every run):
+consistent with `==` if the code folds, or else when both stored names are lower-case -/
+theorem C23_eq_hash_current (h : Name → Nat) (a b : Name)
+    (hyp : Generated.hashFoldsName = true ∨ (lower a = a ∧ lower b = b)) (he : itemEq a b = true) :
+    itemHash Generated.hashFoldsName h a = itemHash Generated.hashFoldsName h b := by
+  generalize Generated.hashFoldsName = folds at hyp ⊢
+  cases folds with
+  | true => simp only [itemHash, if_true]; exact C23_eq_hash_fixed h a b he
+  | false =>
+    rcases hyp with hyp | ⟨ha, hb⟩
+    · cases hyp
+    · simp only [itemHash, Bool.false_eq_true, if_false]; exact C23_eq_hash_partial h a b ha hb he
+
+/-- premise of T1, read off the sources: every place where the item factory builds an item name lower-cases it -/
+theorem C23_tables : Generated.itemNameFolded.all (fun p => p.2) = true ∧ Generated.itemNameFolded.length ≠ 0 := by decide
 
 /-- `x in set` agrees with `x in list` (hash lookup agrees with `==`) when all names involved are lower-case -/
 theorem C23_set_mem_partial (h : Name → Nat) (s : List Name) (x : Name) (hs : ∀ y, y ∈ s → lower y = y)
